@@ -39,6 +39,11 @@ def plan(tier):
                 # capacity-bounded storages far beyond their capacity (evictions / in-place replacements between calls)
                 for st in ('Interval', 'Sequence', 'Geometric'):
                     tasks.append((dict(cfg, storage=st), 5, 1 if st == 'Geometric' else 0, False, 2))
+    # multi-label predictions of magnitude 1e-10: the marginal prediction is a ratio and must not depend on the scale
+    for cfg in sc.product_configs('sage', 'quick'):
+        if cfg['d'] == 2 and cfg['n_inner'] == 1 and cfg['storage'] == 'Batch' and cfg['names'] == 'str' \
+                and cfg['imputer'] == 'joint' and cfg['model'] != 'scalar':
+            tasks.append((dict(cfg, oscale=True), 4, 0, False, 2))
     tasks.sort(key=lambda t: -(t[2] or 0))
     return tasks
 
